@@ -481,7 +481,7 @@ pub unsafe extern "C" fn coupe_fiduccia_mattheyses(
         } else {
             Some(max_moves_per_pass)
         },
-        max_imbalance: if max_imbalance <= 0.0 {
+        max_imbalance: if max_imbalance < 0.0 {
             None
         } else {
             Some(max_imbalance)
